@@ -219,3 +219,16 @@ Definition fresh_like (k : kind) (n : Z) (c : coll) : coll :=
   end.
 
 End C07C08Statements.
+
+(* ---- C07, "only the last chunk may hold fewer": executable side conditions used by
+   the history driver on the implementation's observations ----
+   batch collector: in every Resolve output all chunks but the last hold exactly n;
+   streaming collector: a writer record produced by an Add (flush-before-add at
+   capacity) holds exactly n samples *)
+Fixpoint all_but_last_full (n : Z) (sizes : list Z) : bool :=
+  match sizes with
+  | [] | [_] => true
+  | s :: r => (s =? n) && all_but_last_full n r
+  end.
+
+Definition all_full (n : Z) (sizes : list Z) : bool := forallb (fun s => s =? n) sizes.
